@@ -88,6 +88,13 @@ def run(ctx):
     cases = [dict(version=rnd.choice([None, None, 7, 8, 12, 20, 33]), level=rnd.randrange(4), mask=None, fit=True,
                   calls=[(gens.payload(rnd, rnd.choice(gens.KINDS), rnd.randrange(120)), 20)], tag="auto")
              for _ in range(120 if tier == "thorough" else 40)]
+    # streams that make the fit cross a character-count class (the fitted version is decided in a second pass)
+    cc = [c for c in gens.class_crossing_cases(rnd, gens.capacities()) if c["tag"] == "class-cross-hi" and c["fit"]]
+    cases += cc if tier == "thorough" else rnd.sample(cc, 48)
+    # an earlier compile of the same object that failed (fitting off, version too small), then these settings
+    for c in cases[::4]:
+        c["prehistory"] = dict(version=rnd.choice([1, 2]), level=rnd.choice([2, 3]), mask=rnd.choice([None, None, 2]), fit=False,
+                               data=gens.payload(rnd, "lower", rnd.randrange(60, 90)), clear=rnd.random() < 0.6)
     recs = enc.run_cases(cases)
     enc.attach_model_and_spec(recs, want_model=False)
     for r in recs:
